@@ -1,6 +1,7 @@
 import Uhppote.Model.Api
 import Uhppote.Spec.Api
 import Uhppote.Gen.Routing
+import Uhppote.Gen.Driver
 import Uhppote.Props.C01
 /-! # C06 — each request is sent once, to the right endpoint, over the right transport (partial)
 
@@ -72,5 +73,15 @@ def exampleCfg : Cfg :=
 example : route exampleCfg 405419896 = (.tcp, "192.168.1.100:60000") := by decide
 example : route exampleCfg 303986753 = (.broadcastTo, "255.255.255.255:60000") := by decide
 example : route exampleCfg 1 = (.broadcastTo, "255.255.255.255:60000") := by decide
+
+/-- T5 obligation, "from the configured bind address": every request method derives the local address of
+    its socket from the configured bind address, falls back to the wildcard address only when none is
+    configured (`bind == nil`), and opens its socket on it (UDP: `net.ListenUDP("udp", bind)`; the dialers:
+    `LocalAddr: bind`) -/
+theorem C06_bind_address : Gen.Driver.bindFacts = [
+    ("Broadcast", ["net.UDPAddrFromAddrPort(u.bindAddr)", "bind == nil", "bind"]),
+    ("BroadcastTo", ["net.UDPAddrFromAddrPort(u.bindAddr)", "bind == nil", "bind"]),
+    ("SendUDP", ["net.UDPAddrFromAddrPort(u.bindAddr)", "bind == nil", "bind"]),
+    ("SendTCP", ["net.TCPAddrFromAddrPort(u.bindAddr)", "bind == nil", "bind"])] := by decide
 
 end Uhppote.Props.C06
